@@ -228,6 +228,8 @@ def run_parsers(prop, tier):
             cov["sensing"] = {"clock_reads_by_library": agg.stats["clock_reads_by_library"], "clock_slept_s": agg.stats["clock_slept_s"],
                               "env_reads_by_library_in_other_process": agg.stats["env_reads_by_library"],
                               "env_dependent_outcomes": agg.stats["env_dependent_outcomes"],
+                              "optional_modules_tried_and_not_found": sorted(k.split(":", 1)[1] for k in agg.stats if k.startswith("optional_import_missing:")),
+                              "optional_modules_note": "modules the library tries to import and does not find in this sandbox; an environment that has them cannot be built offline and is NOT simulated",
                               "note": "every clock readable from Python (time.time/monotonic/perf_counter/sleep, datetime.now/today) is the simulator's; the other-environment reference runs years ahead, under application-configured logging, and re-evaluates a request with each environment variable flipped that library code read while answering it"}
             cov["probes"] = {k: agg.stats[k] for k in ("reruns", "mode_changes", "after_fault_checks", "cancel_in_multi", "exc_outcomes", "objects",
                                                        "refs", "refs_other_hashseed", "global_state_changed", "victims_run",
